@@ -232,7 +232,9 @@ def index_cases(draw, nmax=4, tlo=6, thi=22):
         if wavenumber and abs(lc) < 1e-3:
             lc = ax[0]
         irf["dispersion_center"] = lc
-        D = max(abs(dist(irf, lam)) for lam in ax) or 1.0
+        D = max(abs(dist(irf, lam)) for lam in ax)
+        if D < 1e-12:  # (nearly) all indices at the dispersion centre: coefficients of order one
+            D = 1.0
         n_c = draw(st.sampled_from([0, 1, 2, 3, 1, 2, 3]))
         span_c = wmin * 10.0 ** draw(st.floats(-1.5, 1))
         irf["cdc"] = [draw(st.floats(-1, 1)) * span_c / D ** (j + 1) for j in range(n_c)]
@@ -257,5 +259,13 @@ def result_cases(draw):
     case["global_axis"] = [case["global_axis"][i] for i in order]
     if case["irf"]["shift"] is not None:
         case["irf"]["shift"] = [case["irf"]["shift"][i] for i in order]
+    if len(case["times"]) < 6:  # a fit needs a few points: pad around the first effective centre
+        eff_c, eff_w = effective_float(case["irf"], case["global_axis"])
+        extra = [eff_c[0][0] + eff_w[0][0] * u for u in (-2.0, -1.0, 0.0, 1.0, 2.0, 4.0, 8.0, 16.0)]
+        extra = [
+            t for t in extra
+            if all(U_LO <= (t - eff_c[i][g]) / eff_w[i][g] <= U_HI for i in range(len(eff_c)) for g in range(len(eff_c[i])))
+        ]
+        case["times"] = sorted(set(case["times"]) | set(extra))
     case["data_seed"] = draw(st.integers(0, 2**31 - 1))
     return case
